@@ -46,7 +46,9 @@ StyleSeq == << StdStyle,
              [StdStyle EXCEPT !.q = 34, !.sp = <<32>>],
              [StdStyle EXCEPT !.dot = TRUE],
              [StdStyle EXCEPT !.sp = <<9, 10, 13>>, !.uni = TRUE, !.q = 34],
-             [StdStyle EXCEPT !.dot = TRUE, !.sp = <<32>>, !.uni = TRUE] >>
+             [StdStyle EXCEPT !.dot = TRUE, !.sp = <<32>>, !.uni = TRUE],
+             \* single quotes, every character of a name as an upper-case \uXXXX escape: legal, nothing canonical about it
+             [StdStyle EXCEPT !.every = TRUE] >>
 
 
 M == INSTANCE EvalMachine WITH Queries <- QuerySet, DocSeq <- DocSeq, Styles <- StyleSeq, Ctx <- Obj(<<>>, <<>>)
